@@ -285,6 +285,7 @@ def run_check(prop, tier, seed):
 def replay(path):
     with open(path) as f:
         r = json.load(f)
+    r["_path"] = os.path.abspath(path)
     from checks_config import replay_command
     exe = build_target(r["target"])
     cmd = replay_command(r, exe)
